@@ -67,6 +67,22 @@ func c07r3(p *model.Prog, r *report.Result) {
 			}
 			if k, isK := model.ConstInt(dec.Y); isK {
 				r.Check(k == 1, "C07.R3", fkey(fn, "unlink", "count"), p.InstrPos(st), "one packet unlinked, Size decreased by one", "Size is decreased by a constant other than the one packet unlinked")
+				// the constant 1 fits only an unlink of the first packet: the new head is
+				// first.Next, not the successor of a pointer that walked down the list
+				walked := false
+				if ld, isLd := st.Val.(*ssa.UnOp); isLd && ld.Op == token.MUL {
+					if fa, isFa := ld.X.(*ssa.FieldAddr); isFa && model.FieldOf(fa) == nextF && hops(fa.X, 0) != 0 {
+						walked = model.DependsOn(fa.X, func(v ssa.Value) bool {
+							ph, isPhi := v.(*ssa.Phi)
+							if !isPhi {
+								return false
+							}
+							_, isPtr := ph.Type().Underlying().(*types.Pointer)
+							return isPtr
+						})
+					}
+				}
+				r.Check(!walked, "C07.R3", fkey(fn, "unlink", "count-walked"), p.InstrPos(st), "the constant decrement belongs to an unlink of the first packet only", "the list head is moved behind a pointer that walked over several packets, but Size is decreased by the constant 1: every fragmented unit leaks its other fragments from Size, Full() eventually stays true and the first packet of every later unit is dropped")
 				continue
 			}
 			// a counter: find its loop-header phi
